@@ -885,7 +885,7 @@ pub fn property() -> Property {
             "Python's expat is the reference for well-formedness; if python3 is unavailable the wellformed sub-check is inconclusive (exit 2)",
         ],
         subs: vec![
-            PropSub { name: "roundtrip", strategy, cases: |t| t.pick(120_000, 5_000_000), run: run_roundtrip, floors: VARIANT_FLOORS }.boxed(),
+            PropSub { name: "roundtrip", strategy, cases: |t| t.pick(360_000, 5_000_000), run: run_roundtrip, floors: VARIANT_FLOORS }.boxed(),
             oracles::probe_sub(),
             oracles::wellformed_sub(),
             oracles::parsers_sub(),
